@@ -294,143 +294,7 @@ func runC06(w *World, r *Report) {
 	}
 
 	// ---------- R4
-	hp := w.Func(pkgReader, "replicateChannelHandler", "handlePack")
-	if hp == nil {
-		r.Undecided("C06-R4", "handlePack", 0, "anchor not found")
-	} else {
-		fam := familyOf(hp)
-		errSrc := map[string]bool{"getCollectionTargetInfo": true, "getPartitionID": true, "getPartitionIDs": true}
-		// the shared err variable(s): allocs/phi that receive the error results
-		isErrTest := func(b *ssa.BasicBlock) (ssa.Value, *ssa.BasicBlock, bool) {
-			cond, t, _, ok := ifSuccs(b)
-			if !ok {
-				return nil, nil, false
-			}
-			bo, isB := cond.(*ssa.BinOp)
-			if !isB || bo.Op != token.NEQ || !isNilConst(bo.Y) {
-				return nil, nil, false
-			}
-			if _, isIface := bo.X.Type().Underlying().(*types.Interface); !isIface {
-				return nil, nil, false
-			}
-			return bo.X, t, true
-		}
-		k := map[string]int{}
-		eachInstr(hp, func(in ssa.Instruction) {
-			c, ok := in.(*ssa.Call)
-			if !ok {
-				return
-			}
-			s := callSym(c.Common())
-			if s.recv != "replicateChannelHandler" || !errSrc[s.name] {
-				return
-			}
-			k[s.name]++
-			cons := fmt.Sprintf("(*replicateChannelHandler).handlePack | error of %s#%d", s.name, k[s.name])
-			ev := extractIdx(c, 1)
-			if ev == nil {
-				r.Fail("C06-R4", cons, c.Pos(), "the error result is discarded")
-				return
-			}
-			res0 := extractIdx(c, 0)
-			header := loopHeaderOf(c.Block())
-			// blocks that test an error value fed by ev
-			tests := map[*ssa.BasicBlock]*ssa.BasicBlock{}
-			for _, b := range hp.Blocks {
-				tv, t, ok := isErrTest(b)
-				if !ok {
-					continue
-				}
-				for _, x := range backSlice(tv, SliceOpts{MaxDepth: 6}) {
-					if x == ev {
-						tests[b] = t
-					}
-				}
-			}
-			if len(tests) == 0 {
-				r.Fail("C06-R4", cons, c.Pos(), "the error is never tested: a failing lookup is silently ignored and the message is emitted with wrong ids or dropped")
-				return
-			}
-			// reachability from the call to the loop header / exits avoiding test blocks and justified edges
-			justified := func(b *ssa.BasicBlock) *ssa.BasicBlock {
-				cond, t, _, ok := ifSuccs(b)
-				if !ok {
-					return nil
-				}
-				// result0 == -1  (the stored result field compared with -1)
-				if bo, isB := cond.(*ssa.BinOp); isB && bo.Op == token.EQL {
-					if cst, isC := bo.Y.(*ssa.Const); isC && cst.Value != nil && cst.Value.ExactString() == "-1" {
-						_ = res0
-						return t
-					}
-				}
-				// drop-state predicates
-				for _, x := range backSlice(cond, SliceOpts{MaxDepth: 5}) {
-					if cc, isCall := x.(*ssa.Call); isCall {
-						ap := w.accessPath(cc.Call.Value)
-						if strings.HasSuffix(ap, ".isDroppedCollection") || strings.HasSuffix(ap, ".isDroppedPartition") {
-							return t
-						}
-					}
-				}
-				return nil
-			}
-			seen := map[*ssa.BasicBlock]bool{}
-			var leak *ssa.BasicBlock
-			var dfs func(b *ssa.BasicBlock)
-			dfs = func(b *ssa.BasicBlock) {
-				if seen[b] || leak != nil {
-					return
-				}
-				seen[b] = true
-				if _, isTest := tests[b]; isTest && b != c.Block() {
-					return
-				}
-				jt := justified(b)
-				for _, s := range b.Succs {
-					if s == jt {
-						continue
-					}
-					if s == header {
-						leak = b
-						return
-					}
-					if len(s.Succs) == 0 {
-						// function exit without an error test: only acceptable if s itself reports
-						leak = s
-						return
-					}
-					dfs(s)
-				}
-			}
-			// start after the call: successors of the call's block, or the block itself if it is a test
-			if _, isTest := tests[c.Block()]; !isTest {
-				dfs(c.Block())
-			}
-			if leak != nil {
-				r.Fail("C06-R4", cons, leak.Instrs[len(leak.Instrs)-1].Pos(), "the loop can be continued (or the function left) after this call without testing its error and without a drop-state / `-1` justification: the failing message is silently skipped")
-				return
-			}
-			// the true branch of each test reports and returns
-			okRep := true
-			for _, t := range tests {
-				rep, ret := false, false
-				for _, in := range t.Instrs {
-					if cc, ok := in.(*ssa.Call); ok && callSym(cc.Common()).name == "sendErrEvent" {
-						rep = true
-					}
-					if _, ok := in.(*ssa.Return); ok {
-						ret = true
-					}
-				}
-				if !rep || !ret {
-					okRep = false
-				}
-			}
-			r.Check(okRep, "C06-R4", cons, c.Pos(), "tested; the error branch calls sendErrEvent and returns", "the error branch does not both report (sendErrEvent) and return")
-		})
-		_ = fam
-	}
+	hpLookupErrors(w, r, "C06-R4")
 
 	// ---------- R4b: the `-1` sentinel of getPartitionID is error-free, errors come with a non-sentinel value
 	for _, name := range []string{"getPartitionID"} {
@@ -572,4 +436,149 @@ func reachesAvoidingReturn(from, h *ssa.BasicBlock) bool {
 	// a block ending in Return has no successors, so plain reachability is what we need,
 	// but the pause's own block must not already be the header
 	return blockReach(from, nil)[h]
+}
+
+// hpLookupErrors: for every id lookup of handlePack (getCollectionTargetInfo, getPartitionID(s)) the error result is
+// tested before the loop can continue or the function can be left, except on edges justified by drop state or by the
+// callee's error-free `-1` sentinel; the error branch reports and returns. Shared by C06-R4 (no silent skip) and
+// C02-R9 (no message is emitted with an id taken from a failed lookup).
+func hpLookupErrors(w *World, r *Report, rule string) {
+	hp := w.Func(pkgReader, "replicateChannelHandler", "handlePack")
+	if hp == nil {
+		r.Undecided(rule, "handlePack", 0, "anchor not found")
+	} else {
+		fam := familyOf(hp)
+		errSrc := map[string]bool{"getCollectionTargetInfo": true, "getPartitionID": true, "getPartitionIDs": true}
+		// the shared err variable(s): allocs/phi that receive the error results
+		isErrTest := func(b *ssa.BasicBlock) (ssa.Value, *ssa.BasicBlock, bool) {
+			cond, t, _, ok := ifSuccs(b)
+			if !ok {
+				return nil, nil, false
+			}
+			bo, isB := cond.(*ssa.BinOp)
+			if !isB || bo.Op != token.NEQ || !isNilConst(bo.Y) {
+				return nil, nil, false
+			}
+			if _, isIface := bo.X.Type().Underlying().(*types.Interface); !isIface {
+				return nil, nil, false
+			}
+			return bo.X, t, true
+		}
+		k := map[string]int{}
+		eachInstr(hp, func(in ssa.Instruction) {
+			c, ok := in.(*ssa.Call)
+			if !ok {
+				return
+			}
+			s := callSym(c.Common())
+			if s.recv != "replicateChannelHandler" || !errSrc[s.name] {
+				return
+			}
+			k[s.name]++
+			cons := fmt.Sprintf("(*replicateChannelHandler).handlePack | error of %s#%d", s.name, k[s.name])
+			ev := extractIdx(c, 1)
+			if ev == nil {
+				r.Fail(rule, cons, c.Pos(), "the error result is discarded")
+				return
+			}
+			res0 := extractIdx(c, 0)
+			header := loopHeaderOf(c.Block())
+			// blocks that test an error value fed by ev
+			tests := map[*ssa.BasicBlock]*ssa.BasicBlock{}
+			for _, b := range hp.Blocks {
+				tv, t, ok := isErrTest(b)
+				if !ok {
+					continue
+				}
+				for _, x := range backSlice(tv, SliceOpts{MaxDepth: 6}) {
+					if x == ev {
+						tests[b] = t
+					}
+				}
+			}
+			if len(tests) == 0 {
+				r.Fail(rule, cons, c.Pos(), "the error is never tested: a failing lookup is silently ignored and the message is emitted with wrong ids or dropped")
+				return
+			}
+			// reachability from the call to the loop header / exits avoiding test blocks and justified edges
+			justified := func(b *ssa.BasicBlock) *ssa.BasicBlock {
+				cond, t, _, ok := ifSuccs(b)
+				if !ok {
+					return nil
+				}
+				// result0 == -1  (the stored result field compared with -1)
+				if bo, isB := cond.(*ssa.BinOp); isB && bo.Op == token.EQL {
+					if cst, isC := bo.Y.(*ssa.Const); isC && cst.Value != nil && cst.Value.ExactString() == "-1" {
+						_ = res0
+						return t
+					}
+				}
+				// drop-state predicates
+				for _, x := range backSlice(cond, SliceOpts{MaxDepth: 5}) {
+					if cc, isCall := x.(*ssa.Call); isCall {
+						ap := w.accessPath(cc.Call.Value)
+						if strings.HasSuffix(ap, ".isDroppedCollection") || strings.HasSuffix(ap, ".isDroppedPartition") {
+							return t
+						}
+					}
+				}
+				return nil
+			}
+			seen := map[*ssa.BasicBlock]bool{}
+			var leak *ssa.BasicBlock
+			var dfs func(b *ssa.BasicBlock)
+			dfs = func(b *ssa.BasicBlock) {
+				if seen[b] || leak != nil {
+					return
+				}
+				seen[b] = true
+				if _, isTest := tests[b]; isTest && b != c.Block() {
+					return
+				}
+				jt := justified(b)
+				for _, s := range b.Succs {
+					if s == jt {
+						continue
+					}
+					if s == header {
+						leak = b
+						return
+					}
+					if len(s.Succs) == 0 {
+						// function exit without an error test: only acceptable if s itself reports
+						leak = s
+						return
+					}
+					dfs(s)
+				}
+			}
+			// start after the call: successors of the call's block, or the block itself if it is a test
+			if _, isTest := tests[c.Block()]; !isTest {
+				dfs(c.Block())
+			}
+			if leak != nil {
+				r.Fail(rule, cons, leak.Instrs[len(leak.Instrs)-1].Pos(), "the loop can be continued (or the function left) after this call without testing its error and without a drop-state / `-1` justification: the failing message is silently skipped")
+				return
+			}
+			// the true branch of each test reports and returns
+			okRep := true
+			for _, t := range tests {
+				rep, ret := false, false
+				for _, in := range t.Instrs {
+					if cc, ok := in.(*ssa.Call); ok && callSym(cc.Common()).name == "sendErrEvent" {
+						rep = true
+					}
+					if _, ok := in.(*ssa.Return); ok {
+						ret = true
+					}
+				}
+				if !rep || !ret {
+					okRep = false
+				}
+			}
+			r.Check(okRep, rule, cons, c.Pos(), "tested; the error branch calls sendErrEvent and returns", "the error branch does not both report (sendErrEvent) and return")
+		})
+		_ = fam
+	}
+
 }
